@@ -548,7 +548,7 @@ func init() {
 			"the shim pool (vsync.Pool: LIFO free list with a choice of newest/fresh/oldest on Get) models sync.Pool's freedom to keep, drop and reorder cached objects; the free-running pass uses the real sync.Pool",
 			"the -race pass is not exhaustive over schedules; it relies on the detector's happens-before analysis (exhaustive:false for that part)",
 		},
-		BudgetQuick: 100, BudgetThorough: 1500,
+		BudgetQuick: 250, BudgetThorough: 1500,
 		Run:    c12Run,
 		Replay: c12ReplayCase,
 	})
